@@ -874,6 +874,11 @@ OPS = [
     _op("concat_rows_setindex_names_reset", lambda t: _concat([t["L"].set_index("b"), t["R"].rename_axis("id")]).reset_index(), "concat",
         binary="right", noindex=True, unordered=True),
     _op("concat_series_names_to_frame", lambda t: _concat([t["L"].a, t["L"].b]).to_frame(), "concat"),
+    # inputs whose known divisions TOUCH in one label held by both (seeded change C02-m4 / C06-m1: `<=` in
+    # Concat._monotonic_divisions claims divisions that a later .loc trusts)
+    _op("concat_touching_loc", lambda t: _concat([t["L"].loc[:6], t["L"].loc[6:]]).loc[6:7], "concat"),
+    _op("concat_touching_loc_elem", lambda t: _concat([t["L"][["a"]].loc[:6], t["L"][["a"]].loc[6:]]).loc[[6]], "concat",
+        refusal=("Cannot index with list against unknown division",)),
     _op("concat_rows_inner", lambda t: _concat([t["L"], t["R"]], join="inner"), "concat", binary="right"),
     _op("concat_rows_same", lambda t: _concat([t["L"], t["R"]]), "concat", binary="same"),
     _op("concat_cols_same_frame", lambda t: _concat([t["L"][["a"]], t["L"][["b"]] * 2], axis=1), "concat"),
@@ -958,7 +963,7 @@ def run_case(case):
                     return None
                 sig["what"] = "refused-although-window-fits"
                 return (sig, f"NotImplementedError({msg[:60]}…) although every neighbour partition holds the window {op['window']}")
-            if isinstance(ex, (ValueError, NotImplementedError)) and any(m in msg for m in op["refusal"]):
+            if isinstance(ex, (ValueError, NotImplementedError, KeyError)) and any(m in msg for m in op["refusal"]):
                 return None
             if isinstance(ex, AssertionError) and op["family"] in ("align", "concat") and really_known and R is not None:
                 divs = set(env_d["L"].divisions) | set(env_d["R"].divisions)
